@@ -531,7 +531,12 @@ def _reg(names, h):
         LIB[nm] = h
 
 
-_reg("numpy.sqrt math.sqrt", elementwise(lambda x: x.sqrt()))
+def h_sqrt(I, args, kw, st, n):
+    st.events.append(("sqrt", args[0], n))
+    return elementwise(lambda x: x.sqrt())(I, args, kw, st, n)
+
+
+_reg("numpy.sqrt math.sqrt", h_sqrt)
 _reg("numpy.abs numpy.absolute builtins.abs", h_abs)
 _reg("numpy.conj numpy.conjugate", elementwise(lambda x: x.conj()))
 _reg("numpy.real", elementwise(lambda x: x.real()))
@@ -649,7 +654,9 @@ def call_method(I, o, name, args, kw, st, n):
             if A is not None and A.ndim == 1 and A.axes[0][1].as_int() == 1:
                 return arr_index(A, X.const(0))
             return Opaque("item of array")
-        if name in ("any", "all", "min", "max", "tolist", "ravel", "reshape", "flatten"):
+        if name == "reshape":
+            return arr_reshape(o, args, st)
+        if name in ("any", "all", "min", "max", "tolist", "ravel", "flatten"):
             return Opaque(f"array.{name}")
         return Opaque(f"array method {name}")
     if isinstance(o, X):
@@ -725,3 +732,31 @@ def call_method(I, o, name, args, kw, st, n):
 
 class CudaLaunchT:
     pass
+
+
+def arr_reshape(o, args, st):
+    """C-order reshape of a 2-D array to 2-D: element [i, j] is the flat element i*C' + j of the source."""
+    A = _arr(o, st) if isinstance(o, LocalArr) else as_arr(o)
+    if A is None or is_opaque(A): return Opaque("reshape of a partially filled array")
+    shp = args[0] if len(args) == 1 and isinstance(args[0], tuple) else tuple(args)
+    xs = [to_x(a) for a in shp]
+    if any(x is None for x in xs): return Opaque("reshape with non-numeric shape")
+    total = X.const(1)
+    for _, c in A.axes: total = total * c
+    known = X.const(1); unknown = None
+    for i, x in enumerate(xs):
+        if x.as_int() == -1:
+            if unknown is not None: return Opaque("reshape with two -1")
+            unknown = i
+        else: known = known * x
+    if unknown is not None: xs[unknown] = total / known
+    if len(xs) == len(A.axes) and all(a.eq(c) for a, (_, c) in zip(xs, A.axes)): return A
+    if len(xs) != 2 or A.ndim not in (1, 2): return Opaque("reshape of this rank")
+    iv, jv = fresh("i"), fresh("j")
+    flat = X.var(iv) * xs[1] + X.var(jv)
+    if A.ndim == 1:
+        body = subst_val(A.body, {A.axes[0][0]: flat})
+    else:
+        (rv, rc), (cv, cc) = A.axes
+        body = subst_val(A.body, {rv: mk_fn("floor", [flat / cc]), cv: mk_fn("mod", [flat, cc])})
+    return Arr([(iv, xs[0]), (jv, xs[1])], body)
